@@ -50,6 +50,12 @@ def frozen_clause(i, op, per, tk, bad, dropped=(), used=None):
         expects_reply = int(fld(l, "f") or 0) % 2 == 0
         gone_owner = bool(entitled) and entitled[0] in closing
         total = to_entitled + errs
+        # (a callee that hangs up in the batch may have answered the call first - its reply and its hang-up were both found - :
+        #  then the call was delivered to it, although nobody can see that copy any more)
+        owner_names = {tk.names.get(c) for c in entitled if c in closing}
+        answered = len([x for x in per.get(a, []) if fld(x, "t") in ("2", "3") and fld(x, "rs") == fld(l, "ser") and hexname(fld(x, "sender")) in owner_names])
+        if total == 0 and gone_owner and answered >= 1:
+            continue
         if total > 1 or (total == 0 and (expects_reply or not gone_owner)):
             bad.append((None, "step %d (frozen batch): call %s#%s -> %s (entitled: %s, hanging up in the same batch: %s) was delivered %d times and "
                         "answered with %d errors by the bus" % (i, me, fld(l, "ser"), d, entitled, sorted(closing & set(entitled)), to_entitled, errs)))
